@@ -116,6 +116,8 @@ func c03Run(c c03Case, st *vlib.Stats) string {
 	for i, s := range c.Stmts {
 		if s.Kind != "create" {
 			if n, _ := dry.RowOps(s); n >= 2 {
+				eligible = append(eligible, i, i, i) // statements with several row operations are preferred
+			} else if n == 1 {
 				eligible = append(eligible, i)
 			}
 		}
